@@ -30,6 +30,15 @@ def main():
     log = {}
     try:
         demos = [f for f in glob.glob(os.path.join(src, "demo", "**", "*"), recursive=True) if os.path.isfile(f)]
+        if target == "auto":
+            # demo files are stored under demo/<repo-relative dir>/file; all must share one directory
+            dirs = set(os.path.dirname(os.path.relpath(d, os.path.join(src, "demo"))) for d in demos)
+            if len(dirs) != 1:
+                # keep the first directory only (one demonstration is enough)
+                keep = sorted(dirs)[0]
+                demos = [d for d in demos if os.path.dirname(os.path.relpath(d, os.path.join(src, "demo"))) == keep]
+                dirs = {keep}
+            target = dirs.pop()
         names = []
         for d in demos:
             shutil.copy(d, os.path.join(wt, target, os.path.basename(d)))
